@@ -71,8 +71,11 @@ def run(tier):
         if x["status"] != "ok":
             if x["status"] == "exc":
                 rep.machinery("driver exception in %s" % t["sid"], x.get("error", "")[-1200:])
-            else:
+            elif x["status"] == "crash":
                 rep.violation("ProcessDies:%s" % t["sid"], "interpreter %s during %s" % (x["status"], t["sid"]), replay=dict(task=t))
+            else:
+                # running out of the time budget (e.g. Newton-Krylov on a 2 000-bus case on a loaded machine) decides nothing
+                rep.note("%s not observed: %s" % (t["sid"], x["status"]))
             continue
         r_ = x["result"]
         if t["kind"] == "variants":
